@@ -106,8 +106,66 @@ Definition e_parse_flatten_x (v : val) : val :=
   | _ => verr
   end.
 
+(* a sequence of operations on one envelope, class codec:
+   (data, cte, encoder output for the body, ops) -> list of observations
+   op: (0) flatten | (1) encode_7bit() | (2) encode_7bit(encoder) | (3) encode_7bit(encoder that raises)
+       | (4 rcpts) copy | (5) pickle | (6 data) parse | (7 n v) headers[n]=v | (8 n) del | (9 n v) replace_header
+       | (10 n v) prepend_header
+   obs: (0 h b) | (1) done | (2) refused | (3) encoder raised | (4) edit raised | (9) header part outside the class *)
+Definition dec_edit (v : val) : option edit :=
+  match v with
+  | VL [VN 7; VB n; VB x] => Some (EdSet n x)
+  | VL [VN 8; VB n] => Some (EdDel n)
+  | VL [VN 9; VB n; VB x] => Some (EdReplace n x)
+  | VL [VN 10; VB n; VB x] => Some (EdPrepend n x)
+  | _ => None
+  end.
+
+Definition edit_table (ops : list val) (k : N) (h : option (list field)) : option (option (list field)) :=
+  match nth_error ops (N.to_nat k) with
+  | Some v => match dec_edit v with Some ed => apply_edit ed h | None => None end
+  | None => None
+  end.
+
+Fixpoint dec_ops (cte encbody : bytes) (k : N) (ops : list val) : list op :=
+  match ops with
+  | [] => []
+  | v :: r =>
+      (match v with
+       | VL [VN 0] => OFlatten
+       | VL [VN 1] => OEncode None
+       | VL [VN 2] => OEncode (Some (fun d => Some (recode_c cte (fun _ => encbody) d)))
+       | VL [VN 3] => OEncode (Some (fun _ => None))
+       | VL [VN 4; VL rc] => OCopy (map get_b rc)
+       | VL [VN 5] => OPickle
+       | VL [VN 6; VB d] => OParse d
+       | _ => OEdit k
+       end) :: dec_ops cte encbody (k + 1) r
+  end.
+
+Definition enc_obs (o : obs) : val :=
+  match o with
+  | ObsFlat h b => VL [VN 0; VB h; VB b]
+  | ObsDone => VL [VN 1]
+  | ObsRefused => VL [VN 2]
+  | ObsEncoderRaised => VL [VN 3]
+  | ObsEditRaised => VL [VN 4]
+  end.
+
+Definition e_ops (v : val) : val :=
+  match v with
+  | VL [VB data; VB cte; VB encbody; VL ops] =>
+      let e := parse _ hparse_c [] [] data in
+      match e_headers e with
+      | None => VL [VN 9]
+      | Some _ => VL (map enc_obs (trace _ hparse_c hgen_c (edit_table ops) (dec_ops cte encbody 0 ops) e))
+      end
+  | _ => verr
+  end.
+
 Definition entries : list entry :=
   [("c20_boundary"%string, e_boundary); ("c20_parse_oracle"%string, e_parse_oracle);
    ("c20_parse_flatten"%string, e_parse_flatten); ("c20_refix"%string, e_refix);
    ("c20_copy"%string, e_copy); ("c20_encode7"%string, e_encode7); ("c20_hnorm"%string, e_hnorm);
-   ("c20_parse_flatten_x"%string, e_parse_flatten_x)].
+   ("c20_parse_flatten_x"%string, e_parse_flatten_x);
+   ("c20_ops"%string, e_ops)].
